@@ -101,31 +101,29 @@ class ExternalOptimizer(Optimizer):
                 answer: str | list[Any] | dict[str, Any] | None = None
                 exception: BaseException | None = None
 
-                while process.poll() is None:
-                    if answer is None:
-                        try:
-                            answer = self._handle_request(comm, initial_values)
-                        except Exception as exc:  # noqa: BLE001
-                            # Store the exception, we first need to send the 'abort' signal:
-                            exception = exc
-                            answer = "abort"
+                try:
+                    while process.poll() is None:
+                        if answer is None:
+                            try:
+                                answer = self._handle_request(comm, initial_values)
+                            except Exception as exc:  # noqa: BLE001
+                                # Store the exception, we first need to send the 'abort' signal:
+                                exception = exc
+                                answer = "abort"
 
-                    if answer is not None and comm.write(answer):
-                        answer = None
-                        # If the message has been sent, then reraise any exceptions:
-                        if exception is not None:
-                            # The process should have aborted:
-                            with contextlib.suppress(ProcessLookupError):
-                                os.kill(self._process_pid, signal.SIGTERM)
-                            with contextlib.suppress(subprocess.TimeoutExpired):
-                                process.wait(_PROCESS_TIMEOUT)
-                            raise exception
-                    time.sleep(0.1)
-
-                with contextlib.suppress(ProcessLookupError):
-                    os.kill(self._process_pid, signal.SIGTERM)
-                with contextlib.suppress(subprocess.TimeoutExpired):
-                    process.wait(_PROCESS_TIMEOUT)
+                        if answer is not None and comm.write(answer):
+                            answer = None
+                            # If the message has been sent, then reraise any exceptions:
+                            if exception is not None:
+                                # The process should have aborted:
+                                raise exception
+                        time.sleep(0.1)
+                finally:
+                    # Never leave the optimizer process behind, whatever happened:
+                    with contextlib.suppress(ProcessLookupError):
+                        os.kill(self._process_pid, signal.SIGTERM)
+                    with contextlib.suppress(subprocess.TimeoutExpired):
+                        process.wait(_PROCESS_TIMEOUT)
 
                 # The optimizer process ended: a pending exception could not be
                 # raised yet, and an abnormal exit is an error, not a completed run:
